@@ -17,6 +17,10 @@ let props : (string * prop) list = [
   "C17", { tag = "c17"; check = P_c17.check; cross_header = P_c17.cross_header;
            cross_footer = P_c17.cross_footer; nontrivial = P_c17.nontrivial };
   "SESS", sess_prop P_sess.check P_sess.nontrivial;
+  "C05", sess_prop P_sess.check_C05 P_sess.nontrivial;
+  "C06", sess_prop P_sess.check_C06 P_sess.nontrivial;
+  "C01", sess_prop P_sess.check_C01 P_sess.nontrivial;
+  "C12", sess_prop P_sess.check_C12 P_sess.nontrivial;
   "C20", { tag = "c20"; check = P_c20.check; cross_header = P_c20.cross_header;
            cross_footer = P_c20.cross_footer; nontrivial = P_c20.nontrivial };
 ]
